@@ -72,6 +72,13 @@ def check(run):
         if small:   # stay below the capacity limits of tiny geometries (NoMemory is C19's subject)
             jin = [x for x in jin if len(x) < 120]
             min_ = [x for x in min_ if len(x) < 120]
+        # one key repeated around every power of 256 (the second and later occurrences replace the value, so the document
+        # stays two slots large whatever the geometry): per-string bookkeeping must not depend on how often a key was seen
+        reps = [2, 255, 256, 257, 300] + ([65535, 65536, 65537] if thorough and defs.get("ARDUINOJSON_SLOT_ID_SIZE") == 2 else [])
+        for n_ in reps:
+            jin.append(b"{" + b",".join([b'"a":"a"'] * n_) + b"}")
+            jin.append(b"{" + b",".join([b'"k":"v"', b'"k":"k"'] * (n_ // 2 + 1)) + b"}")
+            jin.append(b"[" + b",".join([b'{"a":1,"a":"a"}'] * min(n_, 300)) + b"]")
         for kind, ins, mcmd, icmd in (("json", jin, "J", "JK"), ("msgpack", min_, "M", "MK")):
             cases = []
             for x in ins:
